@@ -65,6 +65,7 @@ fn main() {
                 "kv" => engines::kv::replay(&v),
                 "cluster" => engines::cluster::replay_file(&v),
                 "pair" => engines::pair::replay(&v),
+                "mtu" => engines::mtu::replay(&v),
                 e => Err(format!("unknown engine {e}")),
             };
             match r {
@@ -98,6 +99,10 @@ fn run_check(prop: &str, tier: Tier) -> i32 {
                 check.parts.extend(engines::kv::run("C04", tier, std::time::Instant::now()).into_iter().take(1));
             }
             check.parts.extend(engines::pair::run(p, tier, std::time::Instant::now()));
+        }
+        "C07" => {
+            check.parts.extend(engines::mtu::run(tier, started));
+            check.parts.extend(engines::pair::run("C07", tier, std::time::Instant::now()));
         }
         "C08" => {
             check.parts.extend(engines::wire::run("C08", tier, started));
